@@ -215,6 +215,9 @@ var hostile = []string{
 	"\x00", "a\x00b", "\x00\x00", "'", "\\", ",", ";", "$1", "=", "(", ")", "&", "|", "^", "\t", "💩", "İ", "count", "hit", "miss",
 	"a  b", "a\tb", " a b", "a b ", "\ufffd", "M\ufffdnchen", "\xc0\xa2", "x\xc0\xa0y", "\xc1\x81", "\xed\xa0\x80",
 	strings.Repeat("z", 300),
+	// pairs of invalid UTF-8 strings that become equal when invalid bytes are
+	// replaced by U+FFFD; an invalid byte next to a quote; BOM, U+FFFF
+	"\xfe", "caf\xc3", "caf\xe2", "\xff\"x", "x\"\xff", "\ufeff", "\ufeffa", "\uffff",
 }
 
 // Value draws a value string: mostly from a small alphabet (so equal values
